@@ -16,7 +16,7 @@ from analysis import cfg, atoms as A, preach, writes, accounts as ACC
 from analysis.ir import callee_path, AnchorMissing
 from analysis.prov import prov_of, prov_assuming, strip, leaves, subterms, show
 from analysis.match import is_param, is_field, is_call, const_val, sh, mentions, fail_conditions
-from rules.common import calls_to, ends, arg_name, acc, acc_chain
+from rules.common import calls_to, ends, arg_name, acc, acc_chain, as_min
 from rules.C07 import wrap_discipline
 
 PM = "pinocchio::ported::manager_liquidity_manager::"
@@ -107,6 +107,18 @@ def R2_collect(run):
                             f0, f1 = strip(rf[1][0]), strip(rf[1][1])
                             at_ok = is_param(t0, "vault_amount") and t1[0] == "bin" and t1[1] == "Sub" and arg_name(t1[2]) == "amount_owed" and is_param(t1[3], "vault_amount") \
                                 and arg_name(f0) == "amount_owed" and const_val(f1) == 0
+        if not at_ok:
+            # the same pair written with a minimum: (owed.min(vault), owed - that)
+            pvc = prov_of(calc)
+            for bi, bb in enumerate(calc.blocks):
+                if bb["t"]["k"] == "ret":
+                    r = pvc.local(0, bi, len(bb["s"]))
+                    if r[0] == "tuple" and len(r[1]) == 2:
+                        m = as_min(r[1][0])
+                        t1 = strip(r[1][1])
+                        if m and t1[0] == "bin" and t1[1] == "Sub":
+                            names = sorted([arg_name(m[0]) or "", arg_name(m[1]) or ""])
+                            at_ok = names == ["amount_owed", "vault_amount"] and arg_name(t1[2]) == "amount_owed" and strip(t1[3]) == strip(r[1][0])
         run.check("R2", "min-formula@" + mod, at_ok, "%s::calculate_collect_reward is not (owed > vault) ? (vault, owed - vault) : (owed, 0)" % mod, loc=calc.loc(),
                   detail="owed > vault => (vault, owed - vault) else (owed, 0)")
         h = facts.need_fn(mod + "::handler")
